@@ -19,6 +19,14 @@ void h_trace(uint32_t phase, uint32_t stmt) { (void)phase; (void)stmt; }
 void h_printed(uint64_t line) { (void)line; }
 uint32_t h_plugin_action(uint32_t pre) { (void)pre; return 0; }
 static uint32_t outc[3][4];
+static uint32_t sum_n, sum_err;
+void h_rep_summary(uint32_t isFailure, uint64_t failures, uint64_t run, uint64_t ignored) {
+  /* the summary of repetition k is built from the counts of repetition k alone */
+  uint32_t k = sum_n & 3;
+  if (failures != outc[0][k] || run != outc[1][k] || ignored != outc[2][k]) sum_err |= 1;
+  if ((isFailure != 0) != !(outc[0][k] == 0 && outc[1][k] + outc[2][k] > 0)) sum_err |= 2;
+  sum_n++;
+}
 uint32_t h_registry_outcome(uint32_t what, uint32_t rep) { return outc[what][rep & 3]; }
 
 static int starts_with(const uint8_t* s, const char* p) { for (int i = 0; p[i]; i++) if (s[i] != (uint8_t)p[i]) return 0; return 1; }
@@ -52,5 +60,6 @@ HARNESS(harness_exit_value) {
   int32_t v = (int32_t)h_exit_value(repeat);
   OBSERVE(v);
   CHECK((v == 0) == all_ok, "the runner returns 0 iff every repetition had no failure and ran or ignored at least one test");
+  CHECK(sum_n == repeat && sum_err == 0, "one summary per repetition, carrying the counts and the OK/Errors verdict of that repetition alone");
   WITNESS("end");
 }
